@@ -126,6 +126,20 @@ def op_edit_aux(src, n):
     return 'noop'
 
 
+def op_drop_find(src, n):
+    """the script stops using find_files and starts executing a script that was no input before"""
+    w(src, 'aux/build.bfg', "export(n=%d)\n" % n)
+    w(src, 'build.bfg', "aux = submodule('aux')\nexecutable('prog', ['main.c'])\n")
+
+
+def op_edit_new_submodule(src, n):
+    p = os.path.join(src, 'aux', 'build.bfg')
+    if not os.path.exists(p):
+        return 'noop'
+    with open(p, 'a') as f:
+        f.write("executable('auxprog%d', ['../main.c'])\n" % n)
+
+
 def op_add_excluded(src, n):
     w(src, 'src/skip%d.c' % n, 'int s;\n')
     w(src, 'lib/old/o%d.c' % n, 'int o;\n')
@@ -135,7 +149,8 @@ OPS = [('add-matching', op_add_match), ('add-nonmatching', op_add_nomatch), ('ad
        ('remove-matching', op_remove_match), ('rename-matching', op_rename_match),
        ('add-dir', op_add_dir), ('add-platform-dirs', op_add_dir_src), ('remove-dir', op_remove_dir),
        ('edit-build.bfg', op_edit_script), ('touch-build.bfg', op_touch_script),
-       ('edit-options/submodule', op_edit_aux), ('add-excluded', op_add_excluded)]
+       ('edit-options/submodule', op_edit_aux), ('add-excluded', op_add_excluded),
+       ('drop-find_files', op_drop_find), ('edit-new-submodule', op_edit_new_submodule)]
 OPD = dict(OPS)
 
 
@@ -232,7 +247,9 @@ def check_node(node, hist, viol):
     if fresh is None:
         viol.append(('fresh-configure-fails', label, err[-300:]))
         return False
-    diff = [k for k in fresh if fresh[k] != now[k]]
+    # files a fresh configure does not write at all (leftovers of an earlier generation, e.g. the
+    # .pc files of a pkg_config() call that was removed) are not demanded to disappear
+    diff = [k for k in fresh if fresh[k] is not None and fresh[k] != now[k]]
     if diff:
         skipped = not any('regenerate' in i for i in inv)
         viol.append(('differs-from-fresh-configure', label,
